@@ -7,21 +7,923 @@ The writer model produces exactly the bytes of the independent wire-format state
 namespace Kio
 
 theorem encVarint_eq_spec (n : Nat) : encVarint n = Spec.uvarint n := by
-  sorry
+  induction n using Nat.strongRecOn with
+  | _ n ih =>
+    rw [encVarint, Spec.uvarint]
+    by_cases h : n < 128
+    · simp [h]
+    · simp only [h, dite_false, if_false]
+      rw [ih (n / 128) (by omega), Nat.add_comm]
 
-/-- `struct.pack` model = two's-complement big-endian of the spec -/
+theorem natBE_eq_range (w u : Nat) :
+    natBE w u = (List.range w).map (fun i => (u / 256 ^ (w - 1 - i) % 256).toUInt8) := by
+  induction w generalizing u with
+  | zero => rfl
+  | succ w ih =>
+    rw [natBE, ih, List.range_succ_eq_map, List.map_cons, List.map_map]
+    congr 1
+    apply List.map_congr_left
+    intro i hi
+    have hi : i < w := by simpa using hi
+    simp only [Function.comp, Nat.add_sub_cancel]
+    have e1 : w - i.succ = w - 1 - i := by omega
+    rw [e1]
+    have e2 : 256 ^ w = 256 ^ (w - 1 - i) * 256 ^ (i + 1) := by
+      rw [← Nat.pow_add]; congr 1; omega
+    rw [e2, Nat.mod_mul_right_div_self]
+    rw [Nat.mod_mod_of_dvd _ (by rw [Nat.pow_succ]; exact Nat.dvd_mul_left _ _)]
+
 theorem encIntN_eq_spec (w : Nat) (signed : Bool) (v : Int) :
     (encIntN w signed v).toOption = Spec.intBE w signed v := by
-  sorry
+  rcases w with _ | w
+  · cases signed <;> simp [encIntN, Spec.intBE, intLo, intHi, natBE] <;>
+      split <;> split <;> first | rfl | omega
+  · obtain ⟨P, hP⟩ : ∃ P : Nat, 2 ^ (8 * (w+1) - 1) = P := ⟨_, rfl⟩
+    have hM : (2 : Nat) ^ (8 * (w+1)) = 2 * P := by
+      rw [← hP, ← Nat.pow_succ']; congr 1
+    have hPi : (2 : Int) ^ (8 * (w+1) - 1) = (P : Int) := by rw [← hP]; norm_cast
+    have hMi : (2 : Int) ^ (8 * (w+1)) = 2 * (P : Int) := by
+      have : ((2 ^ (8 * (w+1)) : Nat) : Int) = ((2 * P : Nat) : Int) := by rw [hM]
+      push_cast at this; exact this
+    have hPpos : 0 < P := by rw [← hP]; exact Nat.pow_pos (by omega)
+    unfold encIntN Spec.intBE intLo intHi
+    simp only [hPi, hMi]
+    cases signed
+    · simp only [Bool.false_eq_true, if_false]
+      by_cases hc : 0 ≤ v ∧ v ≤ 2 * (P:Int) - 1
+      · rw [if_pos hc, if_pos (by omega)]
+        rw [emod_nonneg_range hc.1 (by omega), if_neg (by omega), natBE_eq_range]
+        rfl
+      · rw [if_neg hc, if_neg (by omega)]; rfl
+    · simp only [if_true]
+      by_cases hc : -(P:Int) ≤ v ∧ v ≤ (P:Int) - 1
+      · rw [if_pos hc, if_pos (by omega)]
+        by_cases hv : 0 ≤ v
+        · rw [emod_nonneg_range hv (by omega), if_neg (by omega), natBE_eq_range]; rfl
+        · rw [emod_neg_range (by omega) (by omega), if_pos (by omega), natBE_eq_range]; rfl
+      · rw [if_neg hc, if_neg (by omega)]; rfl
+
+theorem insertByTag_eq (x : Nat × Bytes) (l : List (Nat × Bytes)) : insertByTag x l = Spec.insertAsc x l := by
+  induction l with
+  | nil => rfl
+  | cons y ys ih => simp only [insertByTag, Spec.insertAsc, ih]
 
 theorem sortByTag_eq_ascending (l : List (Nat × Bytes)) : sortByTag l = Spec.ascending l := by
-  sorry
+  induction l with
+  | nil => rfl
+  | cons x xs ih => simp only [sortByTag, Spec.ascending, ih, insertByTag_eq]
+
+@[simp] theorem toOption_ok {α} (a : α) : (Except.ok a : Except Err α).toOption = some a := rfl
+@[simp] theorem toOption_error {α} (e : Err) : (Except.error e : Except Err α).toOption = none := rfl
+@[simp] theorem toOption_pure {α} (a : α) : (pure a : Except Err α).toOption = some a := rfl
+
+theorem toOption_bind {α β} (x : Except Err α) (f : α → Except Err β) :
+    (x >>= f).toOption = x.toOption.bind (fun a => (f a).toOption) := by
+  cases x <;> rfl
+
+theorem toOption_eq_some {α} {x : Except Err α} {a : α} : x.toOption = some a ↔ x = .ok a := by
+  cases x <;> simp [Except.toOption]
+
+theorem toOption_eq_none {α} {x : Except Err α} : x.toOption = none ↔ ∃ e, x = .error e := by
+  cases x <;> simp [Except.toOption]
+
+/-! ### primitives -/
+
+theorem writeIntN_int (w : Nat) (s : Bool) (i : Int) :
+    (writeIntN w s (.int i)).toOption = Spec.intBE w s i := by
+  simp only [writeIntN, Value.asInt?]; exact encIntN_eq_spec w s i
+
+theorem compact_payload_eq (w : Nat) (v : Value) (p : Bytes) (hp : v.payload? = some p) :
+    (writeNullableCompactString v).toOption = Spec.lenPrefixed true w p := by
+  have key : (do let n ← uvarintCtor ((p.length : Int) + 1); pure (encVarint n ++ p) : Except Err Bytes).toOption
+      = Spec.lenPrefixed true w p := by
+    simp only [Spec.lenPrefixed, if_true, uvarintCtor]
+    have e : ((2:Int) ^ 35) = ((2 ^ 35 : Nat) : Int) := by norm_cast
+    by_cases h : p.length + 1 < 2 ^ 35
+    · rw [if_pos h, if_pos (by rw [e]; omega)]
+      simp only [bind, Except.bind, pure, Except.pure, toOption_ok]
+      rw [encVarint_eq_spec]
+      congr 3
+    · rw [if_neg h, if_neg (by rw [e]; omega)]; rfl
+  cases v <;> simp [Value.payload?] at hp <;> subst hp <;>
+    simp only [writeNullableCompactString, Value.payload?] <;> exact key
+
+theorem legacy_len_eq (w : Nat) (p : Bytes) :
+    (if (p.length : Int) ≤ intHi w true then
+        (do let l ← encIntN w true p.length; pure (l ++ p) : Except Err Bytes)
+      else .error .outOfBound).toOption = Spec.lenPrefixed false w p := by
+  simp only [Spec.lenPrefixed, Bool.false_eq_true, if_false, ← encIntN_eq_spec]
+  split
+  · rw [toOption_bind]; cases encIntN w true p.length <;> rfl
+  · rename_i h
+    rw [int_out_of_domain _ _ _ (fun hc => h hc.2)]; rfl
+
+theorem primValueOk_mono (env : Env) (k : KType) (n : Bool) (v : Value)
+    (h : primValueOk env k n v = true) : primValueOk env k true v = true := by
+  cases v <;> simp_all [primValueOk]
+  rcases h with h | h
+  · exact Or.inl h
+  · exact Or.inr h.2
+
+theorem prim_uuid_nullable (flex a b : Bool) (v : Value) :
+    Spec.prim .uuid flex a v = Spec.prim .uuid flex b v := by
+  cases v <;> rfl
+
+theorem natBE8_eq (b : Nat) (hb : b < 2 ^ 64) : some (natBE 8 b) = Spec.intBE 8 false b := by
+  rw [← encIntN_eq_spec]
+  unfold encIntN intLo intHi
+  have e : ((2:Int) ^ (8 * 8)) = ((2 ^ 64 : Nat) : Int) := by norm_cast
+  rw [if_pos (by simp only [Bool.false_eq_true, if_false, e]; omega)]
+  rw [e, emod_nonneg_range (by omega) (by omega)]
+  rfl
+
+theorem prim_eq_spec (env : Env) (ht : env.time = TimeCfg.repaired) (hfl : FloatExact)
+    (k : KType) (flex opt : Bool) (w : PrimW) (hw : getWriter k flex opt = .ok w)
+    (v : Value) (hv : primValueOk env k true v = true) :
+    (w.run env v).toOption = Spec.prim k flex opt v := by
+  cases v with
+  | int i =>
+    cases k <;> simp [primValueOk, KType.isFixedInt] at hv <;>
+      cases opt <;> simp [getWriter] at hw <;> subst hw <;>
+      first
+        | exact writeIntN_int _ _ i
+        | (simp only [PrimW.run, writeErrorCode, Spec.prim]; exact encIntN_eq_spec _ _ _)
+  | bool b =>
+    cases k <;> simp [primValueOk] at hv
+    cases opt <;> simp [getWriter] at hw; subst hw
+    rfl
+  | float b =>
+    cases k <;> simp [primValueOk, -Nat.reducePow] at hv
+    cases opt <;> simp [getWriter] at hw; subst hw
+    simp only [PrimW.run, writeFloat64, Spec.prim, hv.1, if_true, toOption_ok]
+    exact natBE8_eq b hv.1
+  | str p =>
+    cases k <;> simp [primValueOk] at hv
+    cases flex <;> cases opt <;> simp [getWriter] at hw <;> subst hw <;>
+      simp only [PrimW.run, Spec.prim, writeCompactString, writeLegacyString, writeNullableLegacyString]
+    · exact legacy_len_eq 2 p
+    · exact legacy_len_eq 2 p
+    · exact compact_payload_eq 2 (.str p) p rfl
+    · exact compact_payload_eq 2 (.str p) p rfl
+  | bytes p =>
+    have hk : k = .bytes ∨ k = .records := by
+      cases k <;> simp [primValueOk] at hv <;> simp
+    cases flex
+    · have : ∀ w, getWriter k false opt = .ok w → (w.run env (.bytes p)).toOption = Spec.lenPrefixed false 4 p := by
+        intro w hw
+        rcases hk with rfl | rfl <;> cases opt <;> simp [getWriter] at hw <;> subst hw <;>
+          simp only [PrimW.run, writeLegacyBytes, writeNullableLegacyBytes] <;>
+          exact legacy_len_eq 4 p
+      rw [this w hw]; rcases hk with rfl | rfl <;> rfl
+    · have : ∀ w, getWriter k true opt = .ok w → (w.run env (.bytes p)).toOption = Spec.lenPrefixed true 4 p := by
+        intro w hw
+        rcases hk with rfl | rfl <;> cases opt <;> simp [getWriter] at hw <;> subst hw <;>
+          simp only [PrimW.run, writeCompactString] <;>
+          exact compact_payload_eq 4 (.bytes p) p rfl
+      rw [this w hw]; rcases hk with rfl | rfl <;> rfl
+  | uuid b =>
+    unfold primValueOk at hv
+    simp only [Bool.and_eq_true, beq_iff_eq, decide_eq_true_eq] at hv
+    obtain ⟨⟨rfl, hl⟩, _⟩ := hv
+    simp [getWriter] at hw; subst hw
+    simp only [PrimW.run, writeUuid, Spec.prim, hl, if_true, toOption_ok]
+  | timedelta us =>
+    cases k <;> simp [primValueOk] at hv <;>
+      cases opt <;> simp [getWriter] at hw <;> subst hw <;>
+      simp only [PrimW.run, writeTimedeltaI32, writeTimedeltaI64, writeTimedelta, msOfTimedelta, ht,
+        TimeCfg.repaired, if_true, Spec.prim, hv.1.1, msOfMicrosExact_whole us hv.1.1] <;>
+      exact encIntN_eq_spec _ _ _
+  | datetime us =>
+    cases k <;> simp [primValueOk] at hv
+    obtain ⟨⟨h1000, h0⟩, h1⟩ := hv
+    have hus : us / 1000 * 1000 = us := by omega
+    have hfx : msOfMicrosFloat us = us / 1000 := by
+      have := hfl (us / 1000) (by omega) (by unfold maxDatetimeUs at h1; omega)
+      rwa [hus] at this
+    cases opt <;> simp [getWriter] at hw <;> subst hw <;>
+      simp only [PrimW.run, writeNullableDatetimeI64, writeDatetimeI64, hfx, Spec.prim, h1000, h0, and_self, if_true] <;>
+      exact encIntN_eq_spec _ _ _
+  | none =>
+    cases k <;> simp [primValueOk] at hv <;>
+      cases flex <;> cases opt <;> simp [getWriter] at hw <;> subst hw <;>
+      simp only [PrimW.run, Spec.prim, writeCompactString, writeLegacyString, writeNullableLegacyString,
+        writeNullableCompactString, writeLegacyBytes, writeNullableLegacyBytes, writeUuid,
+        writeNullableDatetimeI64, writeDatetimeI64, Spec.nullLen, if_true, Bool.false_eq_true, if_false,
+        toOption_ok, toOption_error, encVarint_eq_spec, uuidZero] <;>
+      first
+        | rfl
+        | exact encIntN_eq_spec _ _ _
+  | tuple vs => simp [primValueOk] at hv
+  | entity vs => simp [primValueOk] at hv
+
+
+/-! ### agreement of an `Except` computation with an `Option` specification
+
+`Agree P Q x y`: under `P` every success of `x` is the value `y` prescribes; under `Q` every value
+`y` prescribes is produced by `x`. -/
+
+def Agree {α} (P Q : Prop) (x : Except Err α) (y : Option α) : Prop :=
+  (P → ∀ a, x = .ok a → y = some a) ∧ (Q → ∀ a, y = some a → x = .ok a)
+
+theorem Agree.of_eq {α} {P Q : Prop} {x : Except Err α} {y : Option α} (h : x.toOption = y) :
+    Agree P Q x y := by
+  subst h
+  constructor
+  · intro _ a ha; rw [ha]; rfl
+  · intro _ a ha; exact toOption_eq_some.1 ha
+
+theorem Agree.mono {α} {P Q P' Q' : Prop} {x : Except Err α} {y : Option α}
+    (h : Agree P Q x y) (hp : P' → P) (hq : Q' → Q) : Agree P' Q' x y :=
+  ⟨fun p => h.1 (hp p), fun q => h.2 (hq q)⟩
+
+theorem Agree.bind {α β} {P Q : Prop} {x : Except Err α} {y : Option α}
+    {f : α → Except Err β} {g : α → Option β}
+    (h1 : Agree P Q x y) (h2 : ∀ a, x = .ok a → y = some a → Agree P Q (f a) (g a)) :
+    Agree P Q (x >>= f) (y >>= g) := by
+  constructor
+  · intro p b hb
+    obtain ⟨a, ha, hfa⟩ := bind_ok hb
+    have hy := h1.1 p a ha
+    rw [hy]
+    exact (h2 a ha hy).1 p b hfa
+  · intro q b hb
+    cases hy : y with
+    | none => rw [hy] at hb; simp at hb
+    | some a =>
+      rw [hy] at hb
+      have ha := h1.2 q a hy
+      rw [ha]
+      exact (h2 a ha hy).2 q b hb
+
+theorem Agree.map {α β} {P Q : Prop} {x : Except Err α} {y : Option α} (g : α → β)
+    (h : Agree P Q x y) : Agree P Q (x >>= fun a => pure (g a)) (y.map g) := by
+  have : y.map g = y >>= fun a => some (g a) := by cases y <;> rfl
+  rw [this]
+  exact h.bind (fun a _ _ => Agree.of_eq rfl)
+
+theorem Agree.vacuous {α} {P Q : Prop} {x : Except Err α} (hp : ¬ P) : Agree P Q x none :=
+  ⟨fun p => absurd p hp, fun _ a ha => by simp at ha⟩
+
+/-! ### arrays -/
+
+theorem encMany_agree {P Q : Prop} (e : Value → Except Err Bytes) (e' : Value → Option Bytes)
+    (vs : List Value) (h : ∀ v ∈ vs, Agree P Q (e v) (e' v)) :
+    Agree P Q (encMany e vs) (Spec.concatAll e' vs) := by
+  induction vs with
+  | nil => exact Agree.of_eq rfl
+  | cons v vs ih =>
+    simp only [encMany, Spec.concatAll]
+    refine (h v (by simp)).bind (fun a _ _ => ?_)
+    refine (ih (fun v hv => h v (by simp [hv]))).bind (fun b _ _ => ?_)
+    exact Agree.of_eq rfl
+
+theorem array_null_eq (flex : Bool) (e : Value → Except Err Bytes) (e' : Value → Option Bytes) :
+    (arrayWriter flex e .none).toOption = Spec.array flex true e' .none := by
+  cases flex
+  · simp only [arrayWriter, Bool.false_eq_true, if_false, legacyArrayWriter, Spec.array, if_true, Spec.nullLen]
+    exact encIntN_eq_spec _ _ _
+  · simp only [arrayWriter, if_true, compactArrayWriter, Spec.array, Spec.nullLen, ← encVarint_eq_spec]
+    rfl
+
+theorem array_agree {P Q : Prop} (flex nullable : Bool) (e : Value → Except Err Bytes)
+    (e' : Value → Option Bytes) (vs : List Value) (h : ∀ v ∈ vs, Agree P Q (e v) (e' v)) :
+    Agree P Q (arrayWriter flex e (.tuple vs)) (Spec.array flex nullable e' (.tuple vs)) := by
+  have hm := encMany_agree e e' vs h
+  cases flex
+  · simp only [arrayWriter, Bool.false_eq_true, if_false, legacyArrayWriter, Spec.array]
+    by_cases hc : (vs.length : Int) ≤ intHi 4 true
+    · rw [if_pos hc]
+      cases hl : encIntN 4 true vs.length with
+      | error e0 =>
+        exfalso
+        unfold encIntN at hl
+        rw [if_pos ⟨by unfold intLo; simp, hc⟩] at hl
+        cases hl
+      | ok l =>
+        have hs : Spec.intBE 4 true vs.length = some l := by rw [← encIntN_eq_spec, hl]; rfl
+        rw [hs]
+        show Agree P Q (encMany e vs >>= fun body => pure (l ++ body)) (Spec.concatAll e' vs >>= fun body => some (l ++ body))
+        exact hm.bind (fun b _ _ => Agree.of_eq rfl)
+    · rw [if_neg hc]
+      have hs : Spec.intBE 4 true vs.length = none := by
+        rw [← encIntN_eq_spec, int_out_of_domain _ _ _ (fun h => hc h.2)]; rfl
+      rw [hs]
+      apply Agree.of_eq
+      cases Spec.concatAll e' vs <;> rfl
+  · simp only [arrayWriter, if_true, compactArrayWriter, Spec.array, writeCompactArrayLength, uvarintCtor]
+    have e35 : ((2:Int) ^ 35) = ((2 ^ 35 : Nat) : Int) := by norm_cast
+    by_cases hc : vs.length + 1 < 2 ^ 35
+    · rw [if_pos (by rw [e35]; omega)]
+      simp only [if_pos hc]
+      show Agree P Q (encMany e vs >>= fun body => pure (encVarint ((vs.length : Int) + 1).toNat ++ body))
+        (Spec.concatAll e' vs >>= fun body => some (Spec.uvarint (vs.length + 1) ++ body))
+      refine hm.bind (fun b _ _ => Agree.of_eq ?_)
+      rw [encVarint_eq_spec]
+      have : ((vs.length : Int) + 1).toNat = vs.length + 1 := by omega
+      rw [this]; rfl
+    · rw [if_neg (by rw [e35]; omega)]
+      simp only [if_neg hc]
+      apply Agree.of_eq
+      cases Spec.concatAll e' vs <;> rfl
+
+/-! ### the two places where model and specification differ
+
+* a *tagged* field annotated `tuple[E, ...] | None` whose value is `None` (and whose default is
+  not): the model writes a null array, the specification has no encoding (`Schema.tagArrOk`
+  excludes such fields);
+* a class with `2^35` or more fields can have `2^35` tagged entries: the model's `uvarint(...)`
+  constructor raises, the specification puts no bound on the count (`Schema.fewFields`). -/
+
+mutual
+/-- no tagged field is annotated `tuple[E, ...] | None` -/
+def Schema.tagArrOk : Schema → Bool
+  | .mk _ _ _ fs => Fields.tagArrOk fs
+def Fields.tagArrOk : List Field → Bool
+  | [] => true
+  | f :: fs => Field.tagArrOk f && Fields.tagArrOk fs
+def Field.tagArrOk : Field → Bool
+  | .mk m sh => Shape.tagArrOk m.tag.isSome sh
+def Shape.tagArrOk (tagged : Bool) : Shape → Bool
+  | .ent s _ => Schema.tagArrOk s
+  | .entArr s a => !(tagged && a) && Schema.tagArrOk s
+  | _ => true
+end
+
+mutual
+/-- every class (nested ones included) has fewer than `2^35` fields -/
+def Schema.fewFields : Schema → Bool
+  | .mk _ _ _ fs => decide (fs.length < 2 ^ 35) && Fields.fewFields fs
+def Fields.fewFields : List Field → Bool
+  | [] => true
+  | f :: fs => Field.fewFields f && Fields.fewFields fs
+def Field.fewFields : Field → Bool
+  | .mk _ sh => Shape.fewFields sh
+def Shape.fewFields : Shape → Bool
+  | .ent s _ => Schema.fewFields s
+  | .entArr s _ => Schema.fewFields s
+  | _ => true
+end
+
+/-! ### defaults of tagged fields -/
+
+theorem implicitDefault_eq (env : Env) (ht : env.time = TimeCfg.repaired) (l : PyLeaf)
+    (h : l.base ≠ .uuid) : (implicitDefault env l).toOption = Spec.zeroOf l := by
+  unfold implicitDefault Spec.zeroOf
+  cases hb : l.base <;> simp only [toOption_ok, toOption_error] <;> try (exact absurd hb h)
+  rw [ht, tzAware_repaired 0 (by omega) (by omega)]
+  rfl
+
+mutual
+theorem Schema.defaults_eq (env : Env) (ht : env.time = TimeCfg.repaired) :
+    (s : Schema) → s.wf env = true → (Schema.defaults env s).toOption = Spec.defaultOfSchema s
+  | .mk _ flex rh fs, h => by
+    simp only [Schema.wf, Bool.and_eq_true] at h
+    simp only [Schema.defaults, Spec.defaultOfSchema, toOption_bind]
+    rw [Fields.defaults_eq env ht flex rh fs h.1.1]
+    cases Spec.defaultsOfFields fs <;> rfl
+theorem Fields.defaults_eq (env : Env) (ht : env.time = TimeCfg.repaired) (flex rh : Bool) :
+    (fs : List Field) → Fields.wf env flex rh fs = true →
+      (Fields.defaults env fs).toOption = Spec.defaultsOfFields fs
+  | [], _ => rfl
+  | f :: fs, h => by
+    simp only [Fields.wf, Bool.and_eq_true] at h
+    simp only [Fields.defaults, Spec.defaultsOfFields, toOption_bind]
+    rw [Field.default_eq env ht flex rh f h.1]
+    cases Spec.defaultOfField f with
+    | none => rfl
+    | some v =>
+      rw [Fields.defaults_eq env ht flex rh fs h.2]
+      cases Spec.defaultsOfFields fs <;> rfl
+theorem Field.default_eq (env : Env) (ht : env.time = TimeCfg.repaired) (flex rh : Bool) :
+    (f : Field) → Field.wf env flex rh f = true →
+      (Field.taggedDefault env f).toOption = Spec.defaultOfField f
+  | .mk m sh, h => by
+    simp only [Field.taggedDefault, Spec.defaultOfField]
+    cases hd : m.dflt with
+    | val v => rfl
+    | unrepresentable => rfl
+    | missing =>
+      simp only
+      apply Shape.default_eq env ht flex m sh
+      simp only [Field.wf, Bool.and_eq_true] at h
+      have h3 := h.1.1.2
+      split at h3
+      · right
+        cases sh <;> simp at h3
+        exact ⟨_, _, rfl, h3.2⟩
+      · left; exact h3
+theorem Shape.default_eq (env : Env) (ht : env.time = TimeCfg.repaired) (flex : Bool) (m : FieldMeta) :
+    (sh : Shape) → (Shape.wf env flex m sh = true ∨ ∃ l o, sh = .prim l o ∧ l.base = .str) →
+      (Shape.missingDefault env sh).toOption = Spec.defaultOfShape sh
+  | .prim l o, h => by
+    cases o
+    · simp only [Shape.missingDefault, Spec.defaultOfShape, Bool.false_eq_true, if_false]
+      apply implicitDefault_eq env ht
+      rcases h with h | ⟨l', o', he, hs⟩
+      · simp only [Shape.wf] at h
+        intro hu
+        cases hk : m.kafkaType with
+        | none => rw [hk] at h; simp at h
+        | some k =>
+          rw [hk] at h
+          simp only [Bool.and_eq_true] at h
+          have hlm := h.1.1.1.1
+          have hko := h.1.1.2
+          cases k <;> simp [leafMatches, hu] at hlm
+          simp at hko
+      · cases he; rw [hs]; decide
+    · rfl
+  | .primArr .., _ => rfl
+  | .ent s o, h => by
+    cases o
+    · simp only [Shape.missingDefault, Spec.defaultOfShape, Bool.false_eq_true, if_false]
+      apply Schema.defaults_eq env ht s
+      rcases h with h | ⟨l', o', he, _⟩
+      · simp only [Shape.wf, Bool.and_eq_true] at h; exact h.2
+      · cases he
+    · rfl
+  | .entArr .., _ => rfl
+  | .bad, _ => rfl
+end
+
+/-! ### the tagged section -/
+
+theorem insertByTag_length (x : Nat × Bytes) (l : List (Nat × Bytes)) :
+    (insertByTag x l).length = l.length + 1 := by
+  induction l with
+  | nil => rfl
+  | cons y ys ih => simp only [insertByTag]; split <;> simp [ih]
+
+theorem sortByTag_length (l : List (Nat × Bytes)) : (sortByTag l).length = l.length := by
+  induction l with
+  | nil => rfl
+  | cons x xs ih => simp [sortByTag, insertByTag_length, ih]
+
+theorem taggedItems_length (env : Env) (flex rh : Bool) (fs : List Field) (vs : List Value)
+    (items : List (Nat × Bytes)) (h : Fields.taggedItems env flex rh fs vs = .ok items) :
+    items.length ≤ fs.length := by
+  induction fs generalizing vs items with
+  | nil => cases vs <;> simp [Fields.taggedItems] at h; subst h; simp
+  | cons f fs ih =>
+    cases vs with
+    | nil => simp [Fields.taggedItems] at h
+    | cons v vs =>
+      simp only [Fields.taggedItems] at h
+      split at h
+      · have := ih vs items h; simp; omega
+      · split at h
+        · have := ih vs items h; simp; omega
+        · obtain ⟨item, _, h⟩ := bind_ok h
+          obtain ⟨rest, hrest, h⟩ := bind_ok h
+          simp only [pure, Except.pure] at h
+          injection h with h; subst h
+          have := ih vs rest hrest; simp; omega
+
+theorem uvarintCtor_len (n : Nat) (h : n < 2 ^ 35) : uvarintCtor (n : Int) = .ok n := by
+  unfold uvarintCtor
+  have e : ((2:Int) ^ 35) = ((2 ^ 35 : Nat) : Int) := by norm_cast
+  rw [if_pos (by rw [e]; omega)]; rfl
+
+theorem ok_bind {α β} (a : α) (f : α → Except Err β) : (Except.ok a >>= f) = f a := rfl
+
+theorem writeTaggedField_ok (t : Nat) (w : Value → Except Err Bytes) (v : Value) (p : Bytes)
+    (hw : w v = .ok p) (hl : p.length < 2 ^ 35) :
+    writeTaggedField t w v = .ok (encVarint t ++ encVarint p.length ++ p) := by
+  unfold writeTaggedField
+  rw [hw, ok_bind, uvarintCtor_len _ hl, ok_bind]
+  rfl
+
+theorem taggedItem_agree {P Q : Prop} (t : Int) (ht0 : 0 ≤ t) (w : Value → Except Err Bytes) (v : Value)
+    (y : Option Bytes) (R : Except Err (List (Nat × Bytes))) (R' : Option (List (Nat × Bytes)))
+    (h1 : Agree P Q (w v) y) (h2 : Agree P Q R R') :
+    Agree P Q
+      (do let item ← writeTaggedField t.toNat w v
+          let rest ← R
+          pure ((t.toNat, item) :: rest))
+      (do let p ← y
+          let rest ← R'
+          if 0 ≤ t ∧ p.length < 2 ^ 35 then pure ((t.toNat, Spec.taggedEntry t.toNat p) :: rest) else none) := by
+  constructor
+  · intro p b hb
+    obtain ⟨item, hitem, hb⟩ := bind_ok hb
+    obtain ⟨rest, hrest, hb⟩ := bind_ok hb
+    unfold writeTaggedField at hitem
+    obtain ⟨enc, henc, hitem⟩ := bind_ok hitem
+    obtain ⟨n, hn, hitem⟩ := bind_ok hitem
+    obtain ⟨hnl, hlt⟩ := uvarintCtor_ok hn
+    have hnl' : n = enc.length := by omega
+    subst hnl'
+    simp only [pure, Except.pure] at hitem hb
+    have hitem := Except.ok.inj hitem
+    have hb := Except.ok.inj hb
+    subst hitem hb
+    rw [h1.1 p _ henc, h2.1 p _ hrest]
+    simp only [Option.bind_eq_bind, Option.bind_some, ht0, hlt, and_self, if_true, Spec.taggedEntry,
+      encVarint_eq_spec, pure]
+  · intro q b hb
+    cases hy : y with
+    | none => rw [hy] at hb; simp at hb
+    | some p =>
+      cases hR : R' with
+      | none => rw [hy, hR] at hb; simp at hb
+      | some rest =>
+        rw [hy, hR] at hb
+        simp only [Option.bind_eq_bind, Option.bind_some] at hb
+        by_cases hc : 0 ≤ t ∧ p.length < 2 ^ 35
+        · rw [if_pos hc] at hb
+          have hb := Option.some.inj hb
+          subst hb
+          rw [h2.2 q _ hR, writeTaggedField_ok _ _ _ _ (h1.2 q _ hy) hc.2]
+          simp only [Spec.taggedEntry, encVarint_eq_spec]
+          rfl
+        · rw [if_neg hc] at hb; cases hb
+
+theorem allOk_forall {α} (p : α → Bool) (l : List α) (h : allOk p l = true) : ∀ x ∈ l, p x = true := by
+  induction l with
+  | nil => simp
+  | cons x xs ih =>
+    simp only [allOk, Bool.and_eq_true] at h
+    intro y hy
+    rcases List.mem_cons.1 hy with rfl | hy
+    · exact h.1
+    · exact ih h.2 y hy
+
+theorem valuesAllOk_forall (env : Env) (s : Schema) (l : List Value) (h : Values.allOk env s l = true) :
+    ∀ x ∈ l, Schema.valueOk env s x = true := by
+  induction l with
+  | nil => simp
+  | cons x xs ih =>
+    simp only [Values.allOk, Bool.and_eq_true] at h
+    intro y hy
+    rcases List.mem_cons.1 hy with rfl | hy
+    · exact h.1
+    · exact ih h.2 y hy
+
+theorem write_none (env : Env) (s : Schema) : (Schema.write env s .none).toOption = Spec.struct s .none := by
+  cases s; simp [Schema.write, Spec.struct]
+
+theorem leafMatches_schemaFieldType (m : FieldMeta) (k : KType) (l : PyLeaf) (hk : m.kafkaType = some k)
+    (hl : leafMatches k l = true) : m.schemaFieldType = .ok k := by
+  unfold FieldMeta.schemaFieldType
+  rw [hk]
+  cases k <;> simp [leafMatches] at hl ⊢
+
+theorem primFieldWriter_eq (env : Env) (m : FieldMeta) (k : KType) (flex opt : Bool) (w : PrimW)
+    (hk : m.schemaFieldType = .ok k) (hw : getWriter k flex opt = .ok w) :
+    primFieldWriter env m flex opt = w.run env := by
+  unfold primFieldWriter
+  rw [hk]; simp only [hw]
+
+theorem isSome_ok {α} {x : Except Err α} (h : x.toOption.isSome = true) : ∃ a, x = .ok a := by
+  cases x with
+  | ok a => exact ⟨a, rfl⟩
+  | error e => simp [Except.toOption] at h
+
+theorem opt_cases {α} (o : Option α) : o = none ∨ ∃ a, o = some a := by
+  cases o
+  · exact Or.inl rfl
+  · exact Or.inr ⟨_, rfl⟩
+
+/-! ### the plan against the specification -/
+
+mutual
+theorem Schema.agree (env : Env) (ht : env.time = TimeCfg.repaired) (hfl : FloatExact) :
+    (s : Schema) → s.wf env = true → ∀ v, s.valueOk env v = true →
+      Agree (s.tagArrOk = true) (s.fewFields = true) (s.write env v) (Spec.struct s v)
+  | .mk n flex rh fs, hwf, v, hv => by
+    cases v with
+    | entity vs =>
+      simp only [Schema.wf, Bool.and_eq_true] at hwf
+      simp only [Schema.valueOk] at hv
+      simp only [Schema.write, Spec.struct]
+      have hU := Fields.untagged_agree env ht hfl flex rh fs hwf.1.1 vs hv
+      refine (hU.mono (P' := Schema.tagArrOk (.mk n flex rh fs) = true)
+        (Q' := Schema.fewFields (.mk n flex rh fs) = true) ?_ ?_).bind (fun a _ _ => ?_)
+      · simp only [Schema.tagArrOk]; exact id
+      · simp only [Schema.fewFields, Bool.and_eq_true]; exact fun h => h.2
+      cases flex
+      · exact Agree.of_eq rfl
+      · simp only [Bool.not_true, Bool.false_eq_true, if_false, if_true]
+        have hT := Fields.tagged_agree env ht hfl true rh fs hwf.1.1 vs hv
+        refine (hT.mono (P' := Schema.tagArrOk (.mk n true rh fs) = true)
+          (Q' := Schema.fewFields (.mk n true rh fs) = true) ?_ ?_).bind (fun items hi _ => ?_)
+        · simp only [Schema.tagArrOk]; exact id
+        · simp only [Schema.fewFields, Bool.and_eq_true]; exact fun h => h.2
+        have hlen := taggedItems_length env true rh fs vs items hi
+        constructor
+        · intro _ b hb
+          obtain ⟨k, hk, hb⟩ := bind_ok hb
+          obtain ⟨hkl, _⟩ := uvarintCtor_ok hk
+          have hkl' : k = (sortByTag items).length := by omega
+          subst hkl'
+          have hb := Except.ok.inj hb
+          subst hb
+          simp only [encVarint_eq_spec, sortByTag_eq_ascending, flattenItems, pure]
+        · intro q b hb
+          simp only [Schema.fewFields, Bool.and_eq_true, decide_eq_true_eq] at q
+          have hb := Option.some.inj hb
+          subst hb
+          rw [uvarintCtor_len _ (by rw [sortByTag_length]; omega), ok_bind]
+          simp only [encVarint_eq_spec, sortByTag_eq_ascending, flattenItems, pure, Except.pure]
+    | int _ | bool _ | float _ | str _ | bytes _ | uuid _ | timedelta _ | datetime _ | none | tuple _ =>
+      simp [Schema.valueOk] at hv
+
+theorem Fields.untagged_agree (env : Env) (ht : env.time = TimeCfg.repaired) (hfl : FloatExact)
+    (flex rh : Bool) :
+    (fs : List Field) → Fields.wf env flex rh fs = true → ∀ vs, Fields.valueOk env rh fs vs = true →
+      Agree (Fields.tagArrOk fs = true) (Fields.fewFields fs = true)
+        (Fields.writeUntagged env flex rh fs vs) (Spec.untagged flex rh fs vs)
+  | [], _, vs, hv => by
+    cases vs with
+    | nil => exact Agree.of_eq rfl
+    | cons v vs => simp [Fields.valueOk] at hv
+  | (.mk m sh) :: fs, hwf, vs, hv => by
+    cases vs with
+    | nil => simp [Fields.valueOk] at hv
+    | cons v vs =>
+      simp only [Fields.wf, Bool.and_eq_true] at hwf
+      simp only [Fields.valueOk, Bool.and_eq_true] at hv
+      have ih := (Fields.untagged_agree env ht hfl flex rh fs hwf.2 vs hv.2).mono
+        (P' := Fields.tagArrOk (.mk m sh :: fs) = true) (Q' := Fields.fewFields (.mk m sh :: fs) = true)
+        (by simp only [Fields.tagArrOk, Bool.and_eq_true]; exact fun h => h.2)
+        (by simp only [Fields.fewFields, Bool.and_eq_true]; exact fun h => h.2)
+      simp only [Fields.writeUntagged, Spec.untagged, Field.isTagged]
+      rcases opt_cases m.tag with htag | ⟨t, htag⟩
+      case inr => simp only [htag, Option.isSome_some, if_true]; exact ih
+      case inl =>
+        simp only [htag, Option.isSome_none, Bool.false_eq_true, if_false]
+        have hF := (Field.agree env ht hfl flex rh (.mk m sh) hwf.1 v hv.1).mono
+          (P' := Fields.tagArrOk (.mk m sh :: fs) = true) (Q' := Fields.fewFields (.mk m sh :: fs) = true)
+          (by simp only [Fields.tagArrOk, Bool.and_eq_true]; exact fun h => h.1)
+          (by simp only [Fields.fewFields, Bool.and_eq_true]; exact fun h => h.1)
+        simp only [htag, Option.isSome_none, Field.isTagged, Field.meta, Field.shape] at hF
+        exact hF.bind (fun a _ _ => ih.bind (fun b _ _ => Agree.of_eq rfl))
+
+theorem Fields.tagged_agree (env : Env) (ht : env.time = TimeCfg.repaired) (hfl : FloatExact)
+    (flex rh : Bool) :
+    (fs : List Field) → Fields.wf env flex rh fs = true → ∀ vs, Fields.valueOk env rh fs vs = true →
+      Agree (Fields.tagArrOk fs = true) (Fields.fewFields fs = true)
+        (Fields.taggedItems env flex rh fs vs) (Spec.taggedEntries flex fs vs)
+  | [], _, vs, hv => by
+    cases vs with
+    | nil => exact Agree.of_eq rfl
+    | cons v vs => simp [Fields.valueOk] at hv
+  | (.mk m sh) :: fs, hwf, vs, hv => by
+    cases vs with
+    | nil => simp [Fields.valueOk] at hv
+    | cons v vs =>
+      simp only [Fields.wf, Bool.and_eq_true] at hwf
+      simp only [Fields.valueOk, Bool.and_eq_true] at hv
+      have ih := (Fields.tagged_agree env ht hfl flex rh fs hwf.2 vs hv.2).mono
+        (P' := Fields.tagArrOk (.mk m sh :: fs) = true) (Q' := Fields.fewFields (.mk m sh :: fs) = true)
+        (by simp only [Fields.tagArrOk, Bool.and_eq_true]; exact fun h => h.2)
+        (by simp only [Fields.fewFields, Bool.and_eq_true]; exact fun h => h.2)
+      have hdef := Field.default_eq env ht flex rh (.mk m sh) hwf.1
+      have hF := (Field.agree env ht hfl flex rh (.mk m sh) hwf.1 v hv.1).mono
+        (P' := Fields.tagArrOk (.mk m sh :: fs) = true) (Q' := Fields.fewFields (.mk m sh :: fs) = true)
+        (by simp only [Fields.tagArrOk, Bool.and_eq_true]; exact fun h => h.1)
+        (by simp only [Fields.fewFields, Bool.and_eq_true]; exact fun h => h.1)
+      have hwf1 := hwf.1
+      simp only [Field.wf, Bool.and_eq_true] at hwf1
+      simp only [Fields.taggedItems, Spec.taggedEntries, Field.tagNat, FieldMeta.tagNat]
+      rcases opt_cases m.tag with htag | ⟨t, htag⟩
+      case inl => simp only [htag, Option.map_none]; exact ih
+      case inr =>
+        simp only [htag, Option.map_some]
+        -- the tag is a uvarint, the field is not the `client_id` special case, the default exists
+        have htok := hwf1.1.1.1.1
+        simp only [htag, tagOk, Bool.and_eq_true, decide_eq_true_eq] at htok
+        have hcid : (rh && m.isClientId) = false := by
+          have h3 := hwf1.1.1.2
+          by_cases hcc : rh = true ∧ m.isClientId = true
+          · rw [if_pos hcc] at h3; simp [htag] at h3
+          · simpa using hcc
+        have hsome := hwf1.1.2
+        simp only [htag, Option.isNone_some, Bool.false_or] at hsome
+        obtain ⟨d, hd⟩ := isSome_ok hsome
+        rw [hd] at hdef ⊢
+        rw [← hdef]
+        simp only [toOption_ok, Option.getD_some, Option.bind_eq_bind, Option.bind_some]
+        by_cases hpe : v.pyEq d = true
+        · simp only [hpe, if_true]; exact ih
+        · simp only [hpe, Bool.false_eq_true, if_false]
+          simp only [htag, Option.isSome_some, Field.isTagged, Field.meta, Field.shape, hcid,
+            Bool.false_eq_true, if_false] at hF
+          exact taggedItem_agree t htok.1 _ v _ _ _ hF ih
+
+/-- one field, as the untagged part / the tagged section writes it -/
+theorem Field.agree (env : Env) (ht : env.time = TimeCfg.repaired) (hfl : FloatExact)
+    (flex rh : Bool) :
+    (f : Field) → Field.wf env flex rh f = true → ∀ v, Field.valueOk env rh f v = true →
+      Agree (Field.tagArrOk f = true) (Field.fewFields f = true)
+        (Field.write env flex rh f.isTagged f v)
+        (if rh && f.meta.isClientId then Spec.prim .string false true v
+         else Spec.fieldBytes flex f.meta.tag.isSome f.meta f.shape v)
+  | .mk m sh, hwf, v, hv => by
+    simp only [Field.wf, Bool.and_eq_true] at hwf
+    simp only [Field.valueOk, Bool.and_eq_true] at hv
+    simp only [Field.write, Field.meta, Field.shape, Field.isTagged]
+    have h3 := hwf.1.1.2
+    have hv1 := hv.1
+    by_cases hcc : rh = true ∧ m.isClientId = true
+    · have hc : (rh && m.isClientId) = true := by simpa using hcc
+      rw [if_pos hcc] at hv1
+      simp only [hc, if_true]
+      apply Agree.of_eq
+      exact prim_eq_spec env ht hfl .string false true .nullableLegacyString rfl v hv1
+    · have hc : (rh && m.isClientId) = false := by simpa using hcc
+      rw [if_neg hcc] at h3 hv1
+      simp only [hc, Bool.false_eq_true, if_false]
+      exact Shape.agree env ht hfl flex m sh h3 v hv1
+
+theorem Shape.agree (env : Env) (ht : env.time = TimeCfg.repaired) (hfl : FloatExact)
+    (flex : Bool) (m : FieldMeta) :
+    (sh : Shape) → Shape.wf env flex m sh = true → ∀ v, Shape.valueOk env m sh v = true →
+      Agree (Shape.tagArrOk m.tag.isSome sh = true) (Shape.fewFields sh = true)
+        (Shape.write env flex m.tag.isSome m sh v) (Spec.fieldBytes flex m.tag.isSome m sh v)
+  | .prim l o, hwf, v, hv => by
+    simp only [Shape.wf] at hwf
+    simp only [Shape.valueOk] at hv
+    cases hk : m.kafkaType with
+    | none => rw [hk] at hwf; simp at hwf
+    | some k =>
+      rw [hk] at hwf hv
+      simp only [Bool.and_eq_true] at hwf hv
+      obtain ⟨w, hw⟩ := isSome_ok hwf.2
+      have hsf := leafMatches_schemaFieldType m k l hk hwf.1.1.1.1
+      simp only [Shape.write, Spec.fieldBytes, hk]
+      rw [primFieldWriter_eq env m k flex _ w hsf hw, Bool.and_comm]
+      exact Agree.of_eq (prim_eq_spec env ht hfl k flex _ w hw v (primValueOk_mono env k o v hv))
+  | .primArr l e a, hwf, v, hv => by
+    simp only [Shape.wf] at hwf
+    simp only [Shape.valueOk] at hv
+    cases hk : m.kafkaType with
+    | none => rw [hk] at hwf; simp at hwf
+    | some k =>
+      rw [hk] at hwf hv
+      simp only [Bool.and_eq_true] at hwf hv
+      obtain ⟨w, hw⟩ := isSome_ok hwf.2
+      have ha : a = false := by simpa using hwf.1.1.1.1.1.2
+      subst ha
+      have hsf := leafMatches_schemaFieldType m k l hk hwf.1.1.1.1.1.1
+      have hte := hwf.1.1.2
+      simp only [Shape.write, Spec.fieldBytes, hk]
+      rw [primFieldWriter_eq env m k flex _ w hsf hw]
+      cases v with
+      | tuple vs =>
+        simp only [Bool.false_and]
+        apply array_agree
+        intro x hx
+        apply Agree.of_eq
+        rw [prim_eq_spec env ht hfl k flex _ w hw x
+          (primValueOk_mono env k e x (allOk_forall _ vs hv x hx))]
+        simp only [Bool.or_false]
+        cases htg : m.tag.isSome <;> cases e <;> try rfl
+        -- tagged, elements `| None`: only for uuid, whose encoding does not depend on the flag
+        rw [htg] at hte
+        simp at hte
+        subst hte
+        exact prim_uuid_nullable _ _ _ _
+      | none => simp at hv
+      | int _ | bool _ | float _ | str _ | bytes _ | uuid _ | timedelta _ | datetime _ | entity _ =>
+        simp at hv
+  | .ent s o, hwf, v, hv => by
+    simp only [Shape.wf, Bool.and_eq_true] at hwf
+    have hto := hwf.1.2
+    have ihs := fun v hv => (Schema.agree env ht hfl s hwf.2 v hv).mono
+      (P' := Shape.tagArrOk m.tag.isSome (.ent s o) = true) (Q' := Shape.fewFields (.ent s o) = true)
+      (by simp only [Shape.tagArrOk]; exact id) (by simp only [Shape.fewFields]; exact id)
+    simp only [Shape.write, Spec.fieldBytes]
+    cases hc : (o && !m.tag.isSome) with
+    | true =>
+      rw [Bool.and_comm] at hc
+      simp only [hc, if_true]
+      cases v with
+      | none => exact Agree.of_eq rfl
+      | int _ | bool _ | float _ | str _ | bytes _ | uuid _ | timedelta _ | datetime _ | tuple _ | entity _ =>
+        simp only [Shape.valueOk] at hv
+        simp only [writeNullable]
+        rw [show encIntN 1 true 1 = .ok [1] from rfl, ok_bind]
+        exact (ihs _ hv).map (fun b => 1 :: b)
+    | false =>
+      rw [Bool.and_comm] at hc
+      simp only [hc, Bool.false_eq_true, if_false]
+      cases v with
+      | none => exact Agree.of_eq (write_none env s)
+      | int _ | bool _ | float _ | str _ | bytes _ | uuid _ | timedelta _ | datetime _ | tuple _ | entity _ =>
+        simp only [Shape.valueOk] at hv
+        exact ihs _ hv
+  | .entArr s a, hwf, v, hv => by
+    simp only [Shape.wf, Bool.and_eq_true] at hwf
+    have ihs := fun v hv => (Schema.agree env ht hfl s hwf.1.2 v hv).mono
+      (P' := Shape.tagArrOk m.tag.isSome (.entArr s a) = true) (Q' := Shape.fewFields (.entArr s a) = true)
+      (by simp only [Shape.tagArrOk, Bool.and_eq_true]; exact fun h => h.2)
+      (by simp only [Shape.fewFields]; exact id)
+    simp only [Shape.write, Spec.fieldBytes]
+    cases v with
+    | tuple vs =>
+      simp only [Shape.valueOk] at hv
+      apply array_agree
+      intro x hx
+      exact ihs x (valuesAllOk_forall env s vs hv x hx)
+    | none =>
+      simp only [Shape.valueOk] at hv
+      subst hv
+      cases htg : m.tag.isSome with
+      | false => exact Agree.of_eq (array_null_eq flex _ _)
+      | true =>
+        -- the model writes a null array, the specification has no encoding: excluded by `tagArrOk`
+        have : Spec.array flex (true && !true) (Spec.struct s) Value.none = none := rfl
+        rw [this]
+        exact Agree.vacuous (by simp [Shape.tagArrOk])
+    | int _ | bool _ | float _ | str _ | bytes _ | uuid _ | timedelta _ | datetime _ | entity _ =>
+      simp [Shape.valueOk] at hv
+  | .bad, hwf, _, _ => by simp [Shape.wf] at hwf
+end
+
+/-! ### C02 at the plan level
+
+The statement originally aimed at,
+
+-- FULL STATEMENT (not proved): theorem Schema.write_eq_spec (env : Env)
+--     (ht : env.time = TimeCfg.repaired) (hfl : FloatExact) (s : Schema) (hwf : s.wf env = true)
+--     (v : Value) (hv : s.valueOk env v = true) : (s.write env v).toOption = Spec.enc s v
+
+is false: `Schema.write_eq_spec_counterexample` below exhibits a coherent class and a well-typed
+canonical instance on which the model writes bytes and `Spec.enc` is `none` (a tagged
+`tuple[E, ...] | None` field holding `None`, default `()`).  In the other direction a class with
+`2^35` tagged fields, all set, makes `uvarint(len(tagged))` raise in the model while `Spec.enc`
+still prescribes bytes.  Outside these two situations the two sides agree, in both directions. -/
+
+/-- **success direction**: whatever the writer plan emits is the Kafka encoding -/
+theorem Schema.write_eq_spec_ok (env : Env) (ht : env.time = TimeCfg.repaired) (hfl : FloatExact)
+    (s : Schema) (hwf : s.wf env = true) (hdom : s.tagArrOk = true)
+    (v : Value) (hv : s.valueOk env v = true) (bs : Bytes)
+    (h : s.write env v = .ok bs) : Spec.enc s v = some bs :=
+  (Schema.agree env ht hfl s hwf v hv).1 hdom bs h
+
+/-- **converse**: every value that has an encoding is written, as that encoding -/
+theorem Schema.spec_eq_write_ok (env : Env) (ht : env.time = TimeCfg.repaired) (hfl : FloatExact)
+    (s : Schema) (hwf : s.wf env = true) (hfew : s.fewFields = true)
+    (v : Value) (hv : s.valueOk env v = true) (bs : Bytes)
+    (h : Spec.enc s v = some bs) : s.write env v = .ok bs :=
+  (Schema.agree env ht hfl s hwf v hv).2 hfew bs h
 
 /-- the writer plan emits the Kafka encoding (`Spec.enc`), and fails exactly where the value has
-    no encoding -/
+    no encoding — the original statement, under the two side conditions it needs -/
 theorem Schema.write_eq_spec (env : Env) (ht : env.time = TimeCfg.repaired) (hfl : FloatExact)
-    (s : Schema) (hwf : s.wf env = true) (v : Value) (hv : s.valueOk env v = true) :
+    (s : Schema) (hwf : s.wf env = true) (hdom : s.tagArrOk = true) (hfew : s.fewFields = true)
+    (v : Value) (hv : s.valueOk env v = true) :
     (s.write env v).toOption = Spec.enc s v := by
-  sorry
+  have hA := Schema.agree env ht hfl s hwf v hv
+  unfold Spec.enc
+  cases hw : s.write env v with
+  | ok bs => rw [hA.1 hdom bs hw]; rfl
+  | error e =>
+    cases hs : Spec.struct s v with
+    | none => rfl
+    | some bs => rw [hA.2 hfew bs hs] at hw; cases hw
+
+/-! ### the full statement fails without `tagArrOk` -/
+
+namespace SpecEqCounterexample
+def env0 : Env := { errorCodes := [], time := TimeCfg.repaired, skipUnknownTags := true, nullableTaggedReader := true }
+/-- `class Inner: x: i8` (flexible) -/
+def inner : Schema :=
+  .mk 1 true false [.mk ⟨0, false, some .int8, none, .missing, false⟩ (.prim ⟨.i8, false⟩ false)]
+/-- `class Outer: xs: tuple[Inner, ...] | None = field(metadata={"tag": 0}, default=())` -/
+def outer : Schema :=
+  .mk 0 true false [.mk ⟨1, false, none, some 0, .val (.tuple []), false⟩ (.entArr inner true)]
+/-- `Outer(xs=None)` -/
+def value : Value := .entity [.none]
+
+theorem wf : outer.wf env0 = true := by decide
+theorem ok : outer.valueOk env0 value = true := by
+  simp [outer, value, Schema.valueOk, Fields.valueOk, Field.valueOk, Shape.valueOk,
+    Field.taggedDefault, Value.pyEq, Except.toOption]
+theorem spec_none : Spec.enc outer value = none := by decide
+theorem impl_some : outer.write env0 value = .ok [1, 0, 1, 0] := by
+  have e0 : encVarint 0 = [0] := by rw [encVarint]; rfl
+  have e1 : encVarint 1 = [1] := by rw [encVarint]; rfl
+  have u0 : uvarintCtor 0 = .ok 0 := rfl
+  have u1' : uvarintCtor ((1 : Nat) : Int) = .ok 1 := rfl
+  simp only [outer, value, Schema.write, Fields.writeUntagged, Field.isTagged, Fields.taggedItems,
+    Field.tagNat, FieldMeta.tagNat, Field.taggedDefault, Value.pyEq, Except.toOption, writeTaggedField,
+    Field.write, Shape.write, arrayWriter, compactArrayWriter, writeCompactArrayLength, ok_bind,
+    Option.isSome_some, if_true, Bool.not_true, Bool.false_eq_true, if_false, Option.map_some,
+    Option.getD_some, Bool.false_and, Int.reduceNeg, Int.reduceAdd, Int.toNat_zero, u0, e0, pure,
+    Except.pure, u1', e1, sortByTag, insertByTag, flattenItems, List.map, List.flatten,
+    List.length_cons, List.length_nil]
+  rfl
+end SpecEqCounterexample
+
+/-- the unconditional statement is false -/
+theorem Schema.write_eq_spec_counterexample :
+    ∃ (env : Env) (s : Schema) (v : Value), env.time = TimeCfg.repaired ∧ s.wf env = true ∧
+      s.valueOk env v = true ∧ (s.write env v).toOption ≠ Spec.enc s v := by
+  refine ⟨SpecEqCounterexample.env0, SpecEqCounterexample.outer, SpecEqCounterexample.value, rfl,
+    SpecEqCounterexample.wf, SpecEqCounterexample.ok, ?_⟩
+  rw [SpecEqCounterexample.impl_some, SpecEqCounterexample.spec_none]
+  simp [Except.toOption]
 
 end Kio
